@@ -44,7 +44,7 @@ LoadOK(cs) ==
     /\ (cs.class = "json" /\ DenoteLegacy(cs.file).ok) =>
           IF LoadAccepts(DenoteLegacy(cs.file).reg) THEN (cs.res = "ok" /\ Reg(cs.loaded) = DenoteLegacy(cs.file).reg)
           ELSE (cs.res = "ok" => Reg(cs.loaded) = DenoteLegacy(cs.file).reg)
-    /\ (cs.class = "empty") => (cs.res = "ok" /\ Reg(cs.loaded) = Reg(cs.before))
+    /\ (cs.class = "empty") => (cs.res = "ok" /\ (cs.before = <<>> => cs.loaded = <<>>))
     \* a missing file is created holding the current registry
     /\ (cs.class = "missing") => (cs.res = "ok" /\ Reg(cs.loaded) = Reg(cs.before)
                                   /\ cs.created /\ Denote(cs.file).ok /\ Denote(cs.file).reg = Reg(cs.before))
